@@ -114,15 +114,52 @@ def genuine(rng, keys, with_delegation=None):
 MUTATIONS = ["none", "none", "id-random", "id-upper", "id-short", "id-of-other", "sig-flip", "sig-upper", "sig-short", "sig-nonhex",
              "sig-of-other", "pubkey-other", "pubkey-upper", "pubkey-space", "pubkey-nonhex", "content", "created_at", "kind", "tags",
              "tag-append", "deleg-valid", "deleg-forged", "deleg-transplanted", "deleg-short", "deleg-long", "deleg-badhex",
-             "deleg-conditions-changed", "created_at-str"]
+             "deleg-conditions-changed", "created_at-str",
+             # hex that `bytes.fromhex` accepts although it is not the canonical text (it skips ASCII whitespace)
+             "pubkey-spaced-words", "sig-spaced-halves", "sig-trailing-space", "id-spaced",
+             # the relay's own identity: an event under the service pubkey is as unauthentic as any other when forged
+             "service-forged-sig", "service-foreign-sig", "service-content-changed", "service-genuine", "pubkey-empty"]
+
+SERVICE_KEY = "07" * 32
 
 
 def mutate(rng, keys, m):
     if m.startswith("deleg-"):
         return genuine(rng, keys, with_delegation=m[6:])
+    if m.startswith("service-"):
+        from aionostr.key import PrivateKey
+
+        svc = PrivateKey(bytes.fromhex(SERVICE_KEY))
+        ev = genuine(rng, [svc])
+        if rng.random() < 0.5:
+            # the shape of a role assignment (kind 31494, d = auth:<pubkey>), re-signed by the service key
+            from aionostr.event import Event
+
+            target = rng.choice(keys).public_key.hex()
+            e = Event(pubkey=svc.public_key.hex(), content="s", kind=31494, created_at=ev["created_at"],
+                      tags=[["t", "auth"], ["d", "auth:" + target], ["p", target]])
+            e.sign(svc.hex())
+            ev = e.to_json_object()
+        if m == "service-forged-sig":
+            ev["sig"] = rng.choice(["00" * 64, rng.randbytes(64).hex()])
+        elif m == "service-foreign-sig":
+            ev["sig"] = genuine(rng, keys)["sig"]
+        elif m == "service-content-changed":
+            ev["content"] = ev["content"] + "w"
+        return ev
     ev = genuine(rng, keys)
     other = genuine(rng, keys)
-    if m == "id-random":
+    if m == "pubkey-empty":
+        ev["pubkey"] = ""
+    elif m == "pubkey-spaced-words":
+        ev["pubkey"] = " ".join(ev["pubkey"][i:i + 8] for i in range(0, 64, 8))
+    elif m == "sig-spaced-halves":
+        ev["sig"] = ev["sig"][:64] + " " + ev["sig"][64:]
+    elif m == "sig-trailing-space":
+        ev["sig"] = ev["sig"] + rng.choice([" ", "\n", "\t"])
+    elif m == "id-spaced":
+        ev["id"] = ev["id"][:32] + " " + ev["id"][32:]
+    elif m == "id-random":
         ev["id"] = rng.randbytes(32).hex()
     elif m == "id-upper":
         ev["id"] = ev["id"].upper()
@@ -231,11 +268,14 @@ def run(report, tier, seed):
     from aionostr.key import PrivateKey
 
     keys = [PrivateKey(bytes([i + 1]) * 32) for i in range(3)]
-    stores = [KVStore(validators=["nostr_relay.validators.is_signed"]), SQLStore(validators=["nostr_relay.validators.is_signed"])]
+    stores = [KVStore(validators=["nostr_relay.validators.is_signed"], service_key=SERVICE_KEY),
+              SQLStore(validators=["nostr_relay.validators.is_signed"], service_key=SERVICE_KEY)]
     report.coverage["rule"] = (
         "genuinely signed events (3 keys, several kinds/contents) under %d mutation classes: forged/upper-case/short/"
         "foreign id, flipped/upper-case/short/non-hex/foreign sig, foreign/upper-case/whitespace/non-hex pubkey, "
-        "content/created_at/kind/tags changed after signing, string created_at, NIP-26 delegation valid/forged/"
+        "hex with embedded / trailing ASCII whitespace (which bytes.fromhex skips) in pubkey, sig and id, an empty pubkey, "
+        "events under the relay's own service pubkey (genuine, forged / foreign signature, content changed; also in the shape of "
+        "a role assignment), content/created_at/kind/tags changed after signing, string created_at, NIP-26 delegation valid/forged/"
         "transplanted/3-item/5-item/bad-hex/conditions-changed, resubmission with a zeroed signature (also after the "
         "genuine event was deleted); both backends; non-trivial = a mutated event" % (len(set(MUTATIONS)) - 1))
     report.assumptions += ["SHA-256 (hashlib) and BIP-340 (coincurve) are trusted; the NIP-01 serialisation is the "
@@ -257,7 +297,8 @@ def replay(report, path):
 
     data = json.load(open(path))
     drv = common.Driver()
-    stores = [KVStore(validators=["nostr_relay.validators.is_signed"]), SQLStore(validators=["nostr_relay.validators.is_signed"])]
+    stores = [KVStore(validators=["nostr_relay.validators.is_signed"], service_key=SERVICE_KEY),
+              SQLStore(validators=["nostr_relay.validators.is_signed"], service_key=SERVICE_KEY)]
     try:
         for it in (data.get("violations") or []) + (data.get("correspondence_breaks") or []):
             r = it.get("replay") or it.get("input")
